@@ -1266,12 +1266,28 @@ pub fn oracle_c13(case: &Case, st: &mut Stats) -> Verdict {
 
 fn names_strategy() -> impl Strategy<Value = Vec<MName>> {
     // a few base names plus relatives (subdomains, parents) so suffixes are shared
-    (prop::collection::vec(prop_oneof![6 => pool_name(4), 1 => crate::gen::arb_name(), 1 => crate::gen::boundary_name()], 1..4), prop::collection::vec((any::<u16>(), any::<u16>(), 0u8..4), 2..8)).prop_map(|(bases, rel)| {
+    (prop::collection::vec(prop_oneof![6 => pool_name(4), 1 => crate::gen::arb_name(), 1 => crate::gen::boundary_name()], 1..4), prop::collection::vec((any::<u16>(), any::<u16>(), 0u8..6), 2..8)).prop_map(|(bases, rel)| {
         let mut names = bases.clone();
         for (sel, lab, how) in rel {
             let b = names[pick(sel, names.len())].clone();
             let label = crate::gen::POOL_LABELS[pick(lab, crate::gen::POOL_LABELS.len())];
             let n = match how {
+                // a child under a label with non-letter octets, and the same with bit 0x20 of one of those
+                // octets flipped ('[' / '{', '@' / '`', '-' / CR, digits / control octets): different names
+                // that a sloppy "ignore the case bit" comparison takes for equal
+                4 | 5 => {
+                    let specials: [&[u8]; 6] = [b"x[y", b"a@b", b"mail-1", b"host10", b"_sip", b"caf\xc9"];
+                    let sp = specials[pick(lab, specials.len())];
+                    let mut other = sp.to_vec();
+                    if let Some(i) = other.iter().position(|o| !o.is_ascii_alphabetic()) {
+                        other[i] ^= 0x20;
+                    }
+                    let first = b.child(sp);
+                    if first.is_valid() && !names.contains(&first) {
+                        names.push(first);
+                    }
+                    b.child(&other)
+                }
                 0 | 1 => b.child(label),
                 2 => b.parent().unwrap_or(b.clone()),
                 _ => b.child(label).child(crate::gen::POOL_LABELS[pick(lab ^ 0x5555, crate::gen::POOL_LABELS.len())]),
